@@ -109,7 +109,10 @@ def main():
             env["VERIF_EVIDENCE_DIR"] = "/tmp/mut_evidence_%d" % os.getpid()
             det = {}
             for c in checks.split(","):
-                rc, o = sh("VERIF_WORKERS=8 ./check %s" % c, cwd=VERIF, env=env, timeout=3600)
+                try:
+                    rc, o = sh("VERIF_WORKERS=8 ./check %s" % c, cwd=VERIF, env=env, timeout=1800)
+                except subprocess.TimeoutExpired:
+                    rc, o = 124, "  key: (check did not finish within 30 min)"
                 key = re.search(r"^  key: (.*)$", o, re.M)
                 det[c] = {"exit": rc, "key": key.group(1) if key else None}
             caught = [c for c, r in det.items() if r["exit"] == 1]
